@@ -149,7 +149,7 @@ Print Assumptions C03_registration_oracle.
    stores a new mapping, invalidates, refreshes and closes the old mapping then
    accesses a closed mapping. *)
 Definition uau_init : state :=
-  (mkS HAVE (Some 0%nat) (Some 0%nat) [0%nat] [] [5] 0 false, [adder 1; changer SameFile]).
+  (mkS HAVE (Some 0%nat) (Some 0%nat) [0%nat] [] [5] 0 false false None, [adder 1; changer SameFile]).
 Definition uau_sched : list nat := ([0; 0; 0; 1; 1; 1; 1; 1; 1; 1] ++ repeat 0 20)%nat.
 Theorem C03_no_fault_refuted :
   good_init (fst uau_init) (snd uau_init) /\
@@ -190,11 +190,42 @@ Theorem C03_no_entry_through_closed_mapping : forall np s0 ts0 sched i u s' u', 
 Proof. exact no_entry_through_closed. Qed.
 Print Assumptions C03_no_entry_through_closed_mapping.
 
+(* Growth of the file from inside a call: when the record of the counter does
+   not fit, the lock holder's own file.lookup extends the file, stores the new
+   mapping, invalidates and refreshes every counter (its own too) and closes
+   the previous mapping before it returns.  From the end of that invalidate the
+   thread holds the lock with havePtr clear, so the pointer lookup returned is
+   never used: the CAS on the saved word fails and the counter is looked up
+   again (all theorems above cover these steps too: the transition system
+   includes them). *)
+Theorem C03_grower_must_look_up_again : forall np s0 ts0 sched, good_init s0 ts0 ->
+  let '(s, ts) := run np sched (s0, ts0) in
+  forall i t, nth_error ts i = Some t -> t_pc t = GRfLoad \/ t_pc t = GClose ->
+  w_have (s_word s) = false /\ w_readers (s_word s) = LOCKED.
+Proof. exact grower_must_look_up_again. Qed.
+Print Assumptions C03_grower_must_look_up_again.
+
 (* Non-vacuity: a concrete run with three adders and a rotation ends with
    everything persisted. *)
 Example C03_example_run :
   let st := run default_nops
       [0;1;2;3; 3;3;3;3;3;3; 0;0;0;0;0;0;0;0;0;0; 1;1;1;1;1;1;1;1;1;1;1; 2;2;2;2;2;2;2;2;2;2;2]%nat
-      (mkS 0 None None [] [] [] 0 false, [adder 2; adder 3; adder 4; changer NewFile]) in
+      (mkS 0 None None [] [] [] 0 false false None, [adder 2; adder 3; adder 4; changer NewFile]) in
   all_done (snd st) = true /\ persisted (fst st) = 9 /\ w_extra (s_word (fst st)) = 0.
+Proof. vm_compute. repeat split; reflexivity. Qed.
+
+(* a full file: the first Add extends it from inside its lookup (mapping 1 of
+   file 0), closes mapping 0, looks the counter up again and persists 3; a
+   second adder interleaved with the growth ends in the same file *)
+Example C03_example_inline_growth :
+  let st := run default_nops (repeat 0 40 ++ repeat 1 20)%nat
+      (mkS 0 None (Some 0%nat) [0%nat] [] [0] 0 false true None, [adder 3; adder 4]) in
+  all_done (snd st) = true /\ persisted (fst st) = 7 /\ w_extra (s_word (fst st)) = 0 /\
+  s_cur (fst st) = Some 1%nat /\ s_ptr (fst st) = Some 1%nat /\ s_closed (fst st) = [0%nat] /\ s_full (fst st) = false.
+Proof. vm_compute. repeat split; reflexivity. Qed.
+Example C03_example_inline_growth_interleaved :
+  let st := run default_nops ([0;0;0;0;0;0;0; 1;1;1; 0;0;0; 1;1] ++ repeat 0 40 ++ repeat 1 30)%nat
+      (mkS 0 None (Some 0%nat) [0%nat] [] [0] 0 false true None, [adder 3; adder 4]) in
+  all_done (snd st) = true /\ persisted (fst st) = 7 /\ w_extra (s_word (fst st)) = 0 /\
+  s_closed (fst st) = [0%nat].
 Proof. vm_compute. repeat split; reflexivity. Qed.
